@@ -44,7 +44,9 @@ def run_case(case):
     def main():
         net.add("m", "mesh", 0, mcu=case.get("master_mcu"))
         for n in case["nodes"]:
-            net.add(key(n["id"]), n["kind"], n["id"], mcu=n.get("mcu"))
+            c0 = net.add(key(n["id"]), n["kind"], n["id"], mcu=n.get("mcu"))
+            if case.get("cold_start"):
+                c0.node.power = False  # the radio stays off until the node's application starts: no stale poll answers in its FIFO
         master = net.ctl["m"].node
         net.start(["m"])
         net.sim.advance(2 * MS)
@@ -58,6 +60,9 @@ def run_case(case):
                 # applications of already joined nodes (or of the master) stop accepting children (public attribute)
                 net.ctl["m" if who == "m" else key(who)].node.allow_children = False
             k = key(n["id"])
+            if case.get("cold_start"):
+                net.ctl[k].node.power = True
+                net.sim.advance(5 * MS)
             net.start([k])
 
             def join(node, tmo=timeout):
@@ -96,6 +101,10 @@ def run_case(case):
                 entry["tgt"] = tgt
                 net.drain_queues()
                 box = net.call(key(i), lambda node: node.send(tgt, op[4], bytes.fromhex(op[5])), 20000)
+                if len(op) > 6:
+                    # a second, different message of the same type right away; the target's application reads afterwards
+                    net.settle(300)
+                    entry["box2"] = net.call(key(i), lambda node: node.send(tgt, op[4], bytes.fromhex(op[6])), 20000)
                 net.settle(2000)
                 entry["queues"] = net.drain_queues()
             elif k == "write":
@@ -103,6 +112,9 @@ def run_case(case):
                 entry["tgt"] = j
                 net.drain_queues()
                 box = net.call(key(i), lambda node: node.write(addr_of[j], op[3], bytes.fromhex(op[4])), 20000)
+                if len(op) > 5:
+                    net.settle(300)
+                    entry["box2"] = net.call(key(i), lambda node: node.write(addr_of[j], op[3], bytes.fromhex(op[5])), 20000)
                 net.settle(2000)
                 entry["queues"] = net.drain_queues()
             elif k == "check":
@@ -237,6 +249,11 @@ def run_case(case):
         # overrun it, which the allowance covers
         if not lossy and dur > timeout * 1000 * MS + 1500 * MS:
             res.fail("C17/renew_address-exceeds-timeout", "ID %d: %.0f ms with timeout %.1f s" % (i, dur / 1e6, timeout))
+        if i in case.get("expect_none", ()):
+            res.label("no-eligible-parent")
+            if a is not None:
+                res.fail("C17/address-although-no-eligible-parent", "ID %d was given 0o%o although every node that may have children refuses them" % (i, a))
+            continue
         if a is None:
             if not lossy:
                 res.fail("C17/join-failed/%s" % ("relay-needed" if n_nodes > 5 else "direct"), "ID %d got no address within %.1f s (%d nodes)" % (
@@ -350,6 +367,13 @@ def run_case(case):
             if len(got) != 1:
                 res.fail("C17/%s-not-delivered" % k, "ID %d (0o%o) %s to ID %d (0o%o): target queue holds it %d times; returned %r" % (
                     i, my, k, tgt, tgt_addr, len(got), r))
+            if (k == "send" and len(op) > 6) or (k == "write" and len(op) > 5):
+                msg2 = bytes.fromhex(op[6] if k == "send" else op[5])
+                got2 = [f for f in e["queues"].get("n%d" % tgt, []) if f[3] == typ and f[5] == msg2 and f[0] == my]
+                res.label("two-messages-before-the-target-reads")
+                if len(got2) != 1:
+                    res.fail("C17/second-message-not-delivered", "ID %d (0o%o) sent two different type-%d messages to ID %d before it read its queue: the second is "
+                             "held %d times (the first %d)" % (i, my, typ, tgt, len(got2), len(got)))
         elif k == "check":
             exp = my != 0o4444 and not (parent_dead if not op[2] else route_dead)
             if netaddr.parent(my) == 0 and my != 0o4444:
@@ -504,13 +528,28 @@ def _only_one_parent_left():
            "script": [["lookup_addr", 6, 99], ["send", 0, "of", 6, 1, "6f6b"], ["check", 6, True]]}
 
 
+def _nobody_but_a_level4_node():
+    """a chain is built by closing every parent but the newest one after each join (0o5, 0o15, 0o115, 0o1115); then that
+    last parent is closed too except the level-4 node, which cannot have children: the next node must come back with
+    None, not with an address, and must not raise"""
+    ids = [11, 22, 33, 44, 99]
+    nodes = [{"id": i, "kind": "mesh", "offset": 8000 * n, "mcu": {"spi": 50, "jit": 30, "seed": 10 + n, "poll": 100}} for n, i in enumerate(ids)]
+    nodes[1]["deny_before"] = ["m"]
+    nodes[2]["deny_before"] = [11]
+    nodes[3]["deny_before"] = [22]
+    nodes[4]["deny_before"] = [33]
+    yield {"nodes": nodes, "master_mcu": {"spi": 50, "jit": 0, "seed": 7, "poll": 100}, "concurrent": False, "loss": "D", "timeout": 7.5,
+           "expect_none": [99], "cold_start": True, "script": [["lookup_addr", 3, 44], ["check", 3, True]]}
+
+
 def _small_ids_all_pairs():
     """node IDs 1..5 (and 8..13, the numeric values of level-2 addresses) joined in ascending and descending order, so that
     IDs coincide numerically with other nodes' addresses; then every node sends to every other node ID"""
     for ids in ([1, 2, 3, 4, 5], [5, 4, 3, 2, 1], [3, 9, 1, 11, 5, 10, 12], [12, 10, 5, 11, 1, 9, 3]):
         nodes = [{"id": i, "kind": "mesh", "offset": 400 * n, "mcu": {"spi": 50, "jit": 0, "seed": n, "poll": 100}} for n, i in enumerate(ids)]
-        script = [["send", a, "of", b, 1, "%02x%02x" % (a, b)] for a in range(len(ids)) for b in range(len(ids)) if a != b]
+        script = [["send", a, "of", b, 1, "%02x%02x" % (a, b)] + (["%02x%02xff" % (b, a)] if (a + b) % 2 else []) for a in range(len(ids)) for b in range(len(ids)) if a != b]
         script += [op for a in range(len(ids)) for b in range(len(ids)) if a != b for op in (["lookup_id", a, "of", b], ["lookup_addr", a, ids[b]])]
+        script += [["write", a, b, 2, "%02x%02x01" % (a, b), "%02x%02x02" % (a, b)] for a in range(len(ids)) for b in range(len(ids)) if a != b and (a + b) % 2 == 0]
         yield {"nodes": nodes, "master_mcu": {"spi": 50, "jit": 0, "seed": 7, "poll": 100}, "script": script, "concurrent": False, "loss": "D", "timeout": 7.5}
 
 
@@ -520,11 +559,13 @@ def parts(tier):
                 Part("ids-equal-to-address-values-all-pairs", "enum", _small_ids_all_pairs, exhaustive=True),
                 Part("master-side-release", "enum", _master_side_release, exhaustive=True),
                 Part("only-one-parent-left", "enum", _only_one_parent_left, exhaustive=True),
+                Part("nobody-but-a-level-4-node", "enum", _nobody_but_a_level4_node, exhaustive=True),
                 Part("repeated-identical-lookups", "enum", lambda: _repeated_lookup(4), exhaustive=True),
                 Part("release-after-send", "enum", _release_after_send, exhaustive=True), Part("generated", "gen", lambda: _strategy(8), n=96)]
     return [Part("relay-child-stagger-sweep", "enum", _pair_sweep(25), exhaustive=True),
             Part("ids-equal-to-address-values-all-pairs", "enum", _small_ids_all_pairs, exhaustive=True),
             Part("master-side-release", "enum", _master_side_release, exhaustive=True),
             Part("only-one-parent-left", "enum", _only_one_parent_left, exhaustive=True),
+            Part("nobody-but-a-level-4-node", "enum", _nobody_but_a_level4_node, exhaustive=True),
             Part("repeated-identical-lookups", "enum", lambda: _repeated_lookup(8), exhaustive=True),
             Part("release-after-send", "enum", _release_after_send, exhaustive=True), Part("generated", "gen", lambda: _strategy(12), n=3000)]
